@@ -2,4 +2,5 @@ package main
 
 import (
 	_ "verif/props/c01"
+	_ "verif/props/c02"
 )
